@@ -553,7 +553,8 @@ def parse_line(line: str) -> Optional[instructions.Instruction]:
 
     f: Callable[[str], Instruction]
     for key, f in parser_rules:
-        if line.startswith(key):
+        # a key without a trailing space is a whole opcode: "errx" is not "err".
+        if line.startswith(key) and (key.endswith(" ") or line == key or line[len(key)].isspace()):
             ins = f(line[len(key) :].strip())
             ins.comment = comment
             ins.source_code = source_code_line
